@@ -67,7 +67,7 @@ PROPS["C13"] = {
     "pkgs": ["gbn", "mailbox"],
     "level": "exploration",
     "quick_budget": 120, "thorough_budget": 1800,
-    "rule": "dead-peer: after a clean handshake and a little traffic both directions go silent forever at a tape-chosen millisecond (0..20 s), with 0..N+3 messages queued per side at that instant (idle, sending, window full, window full with a blocked Send), ping/pong pairs incl. 5s/7s/3s and pong>ping, static and adaptive resend timeouts; each endpoint must be closed, with all blocked and new calls failing, by t_silence + 3x(ping+pong) + 20x resend timeout + 5 s. idle-healthy: fault-free link with one-way latency up to pong/2, idle for up to 12 virtual hours (bounded to 2500 ping intervals) with occasional traffic, sometimes with transport write calls that return only after the packet (and its acknowledgement) travelled; never closed. mb-dead-peer: the full mailbox stack over the stub relay; on the first, second or third connection of a session the relay starts swallowing every message; both applications' calls must fail within 90 s. idle-resonant: idle-healthy on windows of 1-3 packets (the pings themselves fill the window), equal ping intervals, one-way latency a multiple of ping/8 and a pong timeout between the round trip and ping + round trip, so that ping ticks, pong expiries and packet arrivals share virtual instants and the tape orders them. idle-lost-ack: a fast link that loses an isolated ACK now and then (the retransmitted ping is answered with a NACK well inside the pong timeout). full-window-lost-acks: the acknowledgements of one full window are lost while the resend timeout is 1-3 x (ping + pong) and the peer's own pings are rare: the keepalive has to probe the live peer, not drop it. dead-peer: in half of the runs the connection has been through, and recovered from, a blackout on a full window before the silence." + SIG_RULE,
+    "rule": "dead-peer: after a clean handshake and a little traffic both directions go silent forever at a tape-chosen millisecond (0..20 s), with 0..N+3 messages queued per side at that instant (idle, sending, window full, window full with a blocked Send), ping/pong pairs incl. 5s/7s/3s and pong>ping, static and adaptive resend timeouts; each endpoint must be closed, with all blocked and new calls failing, by t_silence + 3x(ping+pong) + 20x resend timeout + 5 s. idle-healthy: fault-free link with one-way latency up to pong/2, idle for up to 12 virtual hours (bounded to 2500 ping intervals) with occasional traffic, sometimes with transport write calls that return only after the packet (and its acknowledgement) travelled; never closed. mb-dead-peer: the full mailbox stack over the stub relay; on the first, second or third connection of a session the relay starts swallowing every message; both applications' calls must fail within 90 s. idle-resonant: idle-healthy on windows of 1-3 packets (the pings themselves fill the window), equal ping intervals, one-way latency a multiple of ping/8 and a pong timeout between the round trip and ping + round trip, so that ping ticks, pong expiries and packet arrivals share virtual instants and the tape orders them. idle-lost-ack: a fast link that loses an isolated ACK now and then (the retransmitted ping is answered with a NACK well inside the pong timeout). full-window-lost-acks: the acknowledgements of one full window are lost while the resend timeout is 1-3 x (ping + pong) and the peer's own pings are rare: the keepalive has to probe the live peer, not drop it. dead-peer: in half of the runs the connection has been through, and recovered from, a blackout on a full window before the silence. In the idle scenarios a keepalive closure is a violation unless the endpoint, after a ping time of silence, transmitted something (its ping, or the probe resend) and then nothing was delivered to it for its pong timeout - then the peer did not answer and closing is what the property asks for." + SIG_RULE,
     "assumptions": ["closure observed white-box (quit channel) plus blocked/new call results", "bound multipliers are generous; the defect class is unbounded non-detection"],
     "components": GBN_COMPONENTS,
     "expected_probes": ["c13.burst-ack-lost", "c13.ack-lost", "c13.client-idle", "c13.client-sending", "c13.client-window-full", "c13.client-window-full+blocked-send"],
